@@ -33,19 +33,19 @@ pub struct Gate {
 fn no_enter(_: Op, _: usize, _: Ordering) {}
 fn no_exit(_: Op, _: usize, _: usize, _: usize) {}
 
-static GATE_ENTER: atomic::AtomicUsize = atomic::AtomicUsize::new(0);
-static GATE_EXIT: atomic::AtomicUsize = atomic::AtomicUsize::new(0);
+static GATE_ENTER: atomic::AtomicPtr<()> = atomic::AtomicPtr::new(core::ptr::null_mut());
+static GATE_EXIT: atomic::AtomicPtr<()> = atomic::AtomicPtr::new(core::ptr::null_mut());
 
 /// Install (or, with `None`, remove) the gate.
 pub fn set_gate(gate: Option<Gate>) {
     match gate {
         Some(g) => {
-            GATE_EXIT.store(g.exit as usize, Ordering::SeqCst);
-            GATE_ENTER.store(g.enter as usize, Ordering::SeqCst);
+            GATE_EXIT.store(g.exit as *mut (), Ordering::SeqCst);
+            GATE_ENTER.store(g.enter as *mut (), Ordering::SeqCst);
         }
         None => {
-            GATE_ENTER.store(0, Ordering::SeqCst);
-            GATE_EXIT.store(0, Ordering::SeqCst);
+            GATE_ENTER.store(core::ptr::null_mut(), Ordering::SeqCst);
+            GATE_EXIT.store(core::ptr::null_mut(), Ordering::SeqCst);
         }
     }
 }
@@ -53,7 +53,7 @@ pub fn set_gate(gate: Option<Gate>) {
 #[inline]
 fn enter(op: Op, addr: usize, ord: Ordering) {
     let f = GATE_ENTER.load(Ordering::Relaxed);
-    if f != 0 {
+    if !f.is_null() {
         let f: fn(Op, usize, Ordering) = unsafe { core::mem::transmute(f) };
         f(op, addr, ord);
     } else {
@@ -64,7 +64,7 @@ fn enter(op: Op, addr: usize, ord: Ordering) {
 #[inline]
 fn exit(op: Op, addr: usize, read: usize, written: usize) {
     let f = GATE_EXIT.load(Ordering::Relaxed);
-    if f != 0 {
+    if !f.is_null() {
         let f: fn(Op, usize, usize, usize) = unsafe { core::mem::transmute(f) };
         f(op, addr, read, written);
     } else {
